@@ -300,10 +300,10 @@ def ref_protection_descriptor(sid: str):
     return der_seq(der_oid("1.3.6.1.4.1.311.74.1.1"), der_seq(der_seq(der_seq(der_utf8("SID"), der_utf8(sid)))))
 
 
-def ref_dpapi_ng_blob(key_identifier, sid, enc_cek, enc_content, content_params, in_envelope=True, cek_alg="2.16.840.1.101.3.4.1.45", content_alg="2.16.840.1.101.3.4.1.46"):
+def ref_dpapi_ng_blob(key_identifier, sid, enc_cek, enc_content, content_params, in_envelope=True, cek_alg="2.16.840.1.101.3.4.1.45", content_alg="2.16.840.1.101.3.4.1.46", cek_params=None):
     """the layout NCryptProtectSecret produces (calibrated against the 16 Windows blobs in tests/data)"""
     kekid = der_seq(der_octets(key_identifier), der_seq(der_oid("1.3.6.1.4.1.311.74.1"), ref_protection_descriptor(sid)))
-    kekri = der_ctx(2, True, cat(bytes([2, 1, 4]), kekid, der_seq(der_oid(cek_alg)), der_octets(enc_cek)))
+    kekri = der_ctx(2, True, cat(bytes([2, 1, 4]), kekid, der_seq(der_oid(cek_alg), cek_params if cek_params is not None else b""), der_octets(enc_cek)))
     eci_parts = [der_oid("1.2.840.113549.1.7.1"), der_seq(der_oid(content_alg), content_params if content_params is not None else b"")]
     if in_envelope and V.blen(enc_content) > 0:
         eci_parts.append(der_ctx(0, False, enc_content))
